@@ -143,6 +143,19 @@ Definition emitted {A} (over : bool) (pd : A) : list A :=
   let '(sent, cur) := if over then ([pd], None) else ([], Some pd) in
   sent ++ match cur with Some p => [p] | None => [] end.
 
+(* ------------------------------------------------------------------ the insert service and the retry of the controller
+   ProcessRequest (writer/service/impl/profileInsertService.go) appends one row made of the request's fields to
+   the pooled columns and leaves the request as it was; controller.doPush submits the SAME request object again
+   after a failed insert (the failed batch is dropped by the service).  [push_with_retry fails pd] = the blocks
+   handed to the ClickHouse client, in order, when the first [fails] inserts fail. *)
+Definition process_request {A} (cols : list A) (pd : A) : list A * A := (cols ++ [pd], pd).
+Fixpoint push_with_retry {A} (fails : nat) (pd : A) : list (list A) :=
+  let '(blk, pd') := process_request [] pd in
+  match fails with
+  | O => [blk]
+  | S f => blk :: push_with_retry f pd'
+  end.
+
 (* ------------------------------------------------------------------ conservation, as sums over rows
    All three are sums over the whole row list, hence additive over ++ and invariant under
    permutation; for a row list with distinct ids tot_at/self_at are the node's own values. *)
